@@ -41,6 +41,12 @@ pub fn pick_targets(t: &T, rng: &mut Rng) -> Vec<[u8; 32]> {
     for _ in 0..k {
         out.push(*rng.pick(&all));
     }
+    if rng.chance(1, 4) {
+        // the deepest element (elision must reach any depth)
+        if let Some((_, n)) = t.flatten().iter().max_by_key(|(p, _)| p.len()) {
+            out.push(n.digest);
+        }
+    }
     if rng.chance(1, 5) {
         // a digest that does not occur
         let mut d = [0u8; 32];
